@@ -474,7 +474,11 @@ func (c *daneDelivery) PrepareConn(ctx context.Context, mx string) {
 		return
 	}
 
-	c.tlsaFut = future.New()
+	// The same daneDelivery is used for all MXs of the message. Keep the
+	// result of this lookup bound to this MX even if PrepareConn is called
+	// again (next MX) before the lookup completes.
+	fut := future.New()
+	c.tlsaFut = fut
 
 	go func() {
 		defer func() {
@@ -484,7 +488,7 @@ func (c *daneDelivery) PrepareConn(ctx context.Context, mx string) {
 			}
 		}()
 
-		c.tlsaFut.Set(c.discoverTLSA(ctx, dns.FQDN(mx)))
+		fut.Set(c.discoverTLSA(ctx, dns.FQDN(mx)))
 	}()
 }
 
